@@ -515,8 +515,12 @@ fn check_input(prop: &str, s: &dyn Subject, sd: &SubjectDef, p: &Prepared, input
                 f.extend(partial_findings(s, p, utf8, input, &obs, run.as_deref_mut(), key));
             }
             "C12" => {
-                if utf8 {
+                if utf8 && sd.twin {
                     f.extend(twin_findings(s, input, &obs, run.as_deref_mut(), key));
+                } else if utf8 {
+                    if let Some(run) = run.as_deref_mut() {
+                        run.count("inputs_of_subjects_without_twin", 1);
+                    }
                 } else if std::str::from_utf8(input).is_err() {
                     // second clause: in byte mode Unicode-aware patterns never match across invalid sequences -
                     // the reference (same patterns on bytes) decides; only inputs that are not valid UTF-8 count here
@@ -645,7 +649,7 @@ fn rule_for(prop: &str) -> String {
 }
 
 fn subject_replay(prop: &str, cfg: &BuildCfg, idx: usize, sd: &SubjectDef, rust: &str, input: &[u8], f: &[Finding]) -> Value {
-    json!({"property": prop, "tier": "X", "config": cfg.name(), "subject_index": idx, "family": sd.family, "skip_log": sd.skip_log, "has_value": sd.has_value, "error_cb": sd.error_cb,
+    json!({"property": prop, "tier": "X", "config": cfg.name(), "subject_index": idx, "family": sd.family, "skip_log": sd.skip_log, "has_value": sd.has_value, "error_cb": sd.error_cb, "twin": sd.twin,
            "def": sd.def, "rendered_rust": rust, "input_hex": hex(input), "input": show(input), "findings": f})
 }
 
